@@ -121,6 +121,7 @@ def run(ctx, n, faults):
             pre_idx.append(i)
     pouts = run_models(pre_enc)
     prefix = {i: (dec(pouts[2 * k])["finished"], dec(pouts[2 * k + 1])["finished"]) for k, i in enumerate(pre_idx)}
+    first_broken, first_genuine = None, None
     for i, (c, r, mo) in enumerate(zip(cases, impl, mouts)):
         m = dec(mo)
         d = {k: c[k] for k in ("events", "per", "n_jobs", "pol", "fault_at", "kind", "schedule")}
@@ -130,10 +131,28 @@ def run(ctx, n, faults):
         rep.hist("proto_exact_multiple", bool(c["events"]) and len(c["events"]) % c["per"] == 0)
         rep.bump("proto_turns", r["turns"])
         log = r["log"]
-        got = {"finished": 0 if r["schedule_exhausted_with_live_threads"] else 1,
+        n_ev = len(c["events"])
+        over = not r["schedule_exhausted_with_live_threads"] and not r["stuck"]
+        got = {"finished": 1 if over else 0,
                "next": len([e for e in log if e[0] == "submit"]),
                "deliveries": [e[1] for e in log if e[0] == "deliver"],
                "errors": [e[1] for e in log if e[0] == "deliver" and e[2] == "error" and e[3] != "StopIteration"]}
+        # (1) the property itself on the real code, whatever the model says about the steps: a finished call
+        #     raises iff an event is faulty, else returns the number of events and leaves exactly the chunks
+        prop_bad = None
+        if over:
+            if c["fault_at"] is not None:
+                if r["status"] != "raise":
+                    prop_bad = "an event repeats a cue under the default policy but the call returned %r" % (r.get("value"),)
+            elif r["status"] != "ok":
+                prop_bad = "the call raised %s %s on a fault-free file" % (r.get("type"), r.get("message"))
+            elif r["value"] != n_ev:
+                prop_bad = "the call returned %r events, the file has %d" % (r["value"], n_ev)
+            else:
+                want = ["events_0_%d.dat" % k for k in range(-(-n_ev // c["per"]))]
+                if sorted(r["files"]) != sorted(want):
+                    prop_bad = "chunk files left behind %r, expected %r" % (r["files"], want)
+        # (2) step alignment with the model
         bad = None
         if r["stuck"]:
             bad = "the real code did not reach its next step: %s" % r["stuck"]
@@ -150,32 +169,21 @@ def run(ctx, n, faults):
                          "next": "the number of submitted jobs", "deliveries": "the order of the delivered jobs",
                          "errors": "the jobs whose error was recorded, in order"}[key], got[key], m[key])
                     break
-        genuine = False
-        if not bad and got["finished"]:
-            n_ev = len(c["events"])
-            if m["errors"]:
-                if r["status"] != "raise":
-                    bad = "a conversion job failed but the call returned %r" % (r.get("value"),)
-                    genuine = True
-            elif r["status"] != "ok":
-                bad = "the call raised %s %s although no job failed" % (r.get("type"), r.get("message"))
-                genuine = True
-            elif r["value"] != m["total"]:
+            if not bad and over and not prop_bad and not m["errors"] and r["value"] != m["total"]:
                 bad = "the call returned %r events, the model %r" % (r["value"], m["total"])
-                genuine = r["value"] != n_ev
-            if not bad and not m["errors"]:
-                want = ["events_0_%d.dat" % k for k in range(-(-n_ev // c["per"]))]
-                if sorted(r["files"]) != sorted(want):
-                    bad = "chunk files left behind %r, expected %r" % (r["files"], want)
-                    genuine = True
-            if not bad and i in prefix and prefix[i] != (1, 0):
+            if not bad and over and i in prefix and prefix[i] != (1, 0):
                 bad = ("the real code needed %d schedule entries; the model says finished=%r for that prefix and %r for "
                        "the prefix one shorter (expected 1 and 0)" % (r["schedule_used"], prefix[i][0], prefix[i][1]))
-        if bad:
-            rep.violation("controlled schedule: " + bad,
-                          {"correspondence": "X-proto-det", "theorems": THEOREMS, "case": d,
-                           "impl": {k: r[k] for k in r if k != "log"}, "impl_log": log, "model": m},
-                          no_input=not genuine)
+        detail = {"correspondence": "X-proto-det", "theorems": THEOREMS, "case": d,
+                  "impl": {k: r[k] for k in r if k != "log"}, "impl_log": log, "model": m}
+        if prop_bad and first_genuine is None:
+            first_genuine = (prop_bad, detail)
             break
+        if bad and first_broken is None:
+            first_broken = (bad, detail)            # keep looking for an input on which the property itself fails
+    if first_genuine:
+        rep.violation("controlled schedule: " + first_genuine[0], first_genuine[1])
+    elif first_broken:
+        rep.violation("controlled schedule: " + first_broken[0], first_broken[1], no_input=True)
     rep.coverage["traces_validated_against_impl"] += len(cases)
     return len(cases), encs, mouts
